@@ -307,3 +307,56 @@ Theorem whole_run_pool_good H content export ts ix es ws f0 pool0 s pg :
   run_setup H content export ts ix es ws f0 pool0 -> sreach {| s_fs := f0; s_pool := pool0 |} s ->
   In pg (s_pool s) -> pgood content es pg.
 Proof. intros Hs Hr Hin. destruct (whole_run_safe _ _ _ _ _ _ _ _ _ _ Hs Hr) as [_ Hg]. rewrite Forall_forall in Hg. auto. Qed.
+
+(** ** [table_functional] from the shape of the torrents
+    Entries with the same export path are the same file: different torrents have disjoint
+    subtrees (hex of the info-hash is injective), and within a torrent distinct files have distinct
+    paths (hypothesis: the loader does not refuse a file list that names one path twice; such a
+    torrent has no consistent export image and is outside every property's quantifier). *)
+Lemma starts_with_prefix_app (a b p : path) : starts_with (a ++ b) p = true -> starts_with a p = true.
+Proof.
+  revert p; induction a as [|x a IH]; intros p Hs; [reflexivity|]. destruct p as [|y p]; [discriminate|].
+  cbn in *. apply andb_true_iff in Hs. destruct Hs as [H1 H2]. rewrite H1. cbn. now apply IH.
+Qed.
+
+Theorem table_functional_of_distinct_paths export ts ix es content :
+  Forall torrent_ok ts -> NoDup (map t_info_hash ts) ->
+  Forall (fun t => Forall (fun x => x < 256) (t_info_hash t)) ts ->
+  Forall (fun t => NoDup (map f_path (files_of t))) ts ->
+  populate ix (metadata_table export ts 0) = Ok es ->
+  (forall e1 e2, e_ih e1 = e_ih e2 -> e_findex e1 = e_findex e2 -> content e1 = content e2) ->
+  table_functional content es.
+Proof.
+  intros Hts Hnd Hbytes Hpaths Hpop Hcont e1 e2 [Hi1 _] [Hi2 _] Htg.
+  destruct (populate_in _ _ _ _ Hpop Hi1) as (a1 & s1 & Ha1 & ->). destruct (populate_in _ _ _ _ Hpop Hi2) as (a2 & s2 & Ha2 & ->).
+  cbn [with_searches e_target e_len e_ih e_findex] in *.
+  destruct (table_target_confined _ _ _ _ Ha1) as (t1 & Ht1 & Hih1 & Hst1 & _).
+  destruct (table_target_confined _ _ _ _ Ha2) as (t2 & Ht2 & Hih2 & Hst2 & _).
+  rewrite Forall_forall in Hbytes, Hpaths, Hts.
+  assert (Hsame : t_info_hash t1 = t_info_hash t2).
+  { apply (subtrees_disjoint export _ _ (e_target a1)); [apply Hbytes; auto|apply Hbytes; auto| |].
+    - apply (starts_with_prefix_app (export ++ [hexdigest (t_info_hash t1)]) [[68;97;116;97]]). rewrite <- app_assoc. exact Hst1.
+    - rewrite Htg. apply (starts_with_prefix_app (export ++ [hexdigest (t_info_hash t2)]) [[68;97;116;97]]). rewrite <- app_assoc. exact Hst2. }
+  assert (t1 = t2) by (apply (NoDup_map_inj t_info_hash ts); auto). subst t2.
+  (* both entries belong to t1 *)
+  assert (Hent : forall a, In a (metadata_table export ts 0) -> e_ih a = t_info_hash t1 -> exists id, In a (entries_of export t1 id)).
+  { intros a Ha Hih. destruct (metadata_table_in _ _ _ _ Ha) as (t' & id' & Ht' & He').
+    assert (e_ih a = t_info_hash t') as Hq.
+    { unfold entries_of in He'. destruct (t_files t') as [fs|]; [now destruct (entries_multi_nth _ _ _ _ _ _ He')|].
+      destruct (t_length t'); [|contradiction]. destruct He' as [<-|[]]. reflexivity. }
+    assert (t' = t1) by (apply (NoDup_map_inj t_info_hash ts); auto; congruence). subst t'. eauto. }
+  destruct (Hent a1 Ha1 Hih1) as (id1 & E1). destruct (Hent a2 Ha2 Hih2) as (id2 & E2).
+  destruct (Hts t1 Ht1) as [_ [(flen & Hl & Hf & _)|(fs & Hl & Hf & _)]]; unfold entries_of in E1, E2; rewrite ?Hf, ?Hl in *.
+  - destruct E1 as [<-|[]], E2 as [<-|[]]. split; [apply Hcont; reflexivity|reflexivity].
+  - destruct (entries_multi_nth _ _ _ _ _ _ E1) as (_ & k1 & f1 & Hk1 & Hn1 & Hlen1 & Htg1 & _).
+    destruct (entries_multi_nth _ _ _ _ _ _ E2) as (_ & k2 & f2 & Hk2 & Hn2 & Hlen2 & Htg2 & _).
+    rewrite Htg1, Htg2 in Htg. unfold target_multi in Htg. apply app_inv_head in Htg.
+    change ([hexdigest (t_info_hash t1); data_dir_multi; t_name t1] ++ f_path f1) with ([hexdigest (t_info_hash t1); data_dir_multi; t_name t1] ++ f_path f1) in Htg.
+    apply app_inv_head in Htg.
+    assert (Hk : k1 = k2).
+    { specialize (Hpaths t1 Ht1). unfold files_of in Hpaths. rewrite Hf in Hpaths.
+      assert (N1 : nth_error (map f_path fs) k1 = Some (f_path f1)) by now apply map_nth_error.
+      assert (N2 : nth_error (map f_path fs) k2 = Some (f_path f1)) by (rewrite Htg; now apply map_nth_error).
+      apply (proj1 (NoDup_nth_error (map f_path fs)) Hpaths); [apply nth_error_Some; congruence|congruence]. }
+    subst k2. assert (f1 = f2) by congruence. subst f2. split; [apply Hcont; cbn [with_searches e_ih e_findex]; congruence|cbn [with_searches e_len]; congruence].
+Qed.
